@@ -13,15 +13,16 @@ from common import *
 
 COQ_PROPS = 'props/C12.v'
 PARTIAL = ('proved over the reals for every N >= 2 and every M: estimate (real: value, u, df; complex: the 2x2 covariance of '
-           'the mean, on the domain where the implementation does not raise), multi_estimate_real / multi_estimate_complex '
-           '(means, u_k, and u_k u_l r_kl = S_kl/(N(N-1)) incl. the cv != 0 guard; |r| <= 1 by Cauchy-Schwarz so no ValueError '
-           'in exact arithmetic), the bilinear combination identity (LPU double sum over the returned u, r = sample covariance '
-           'of the combined series / N), estimate_digitized >= s/sqrt N, agreement of mean / standard_deviation / '
-           'standard_uncertainty / variance_covariance_complex.  The step from the returned u, r to the variance / dof of a '
-           'derived uncertain number is taken from the kernel as two named Section hypotheses (LPU double sum = C04, '
-           'single-ensemble Welch-Satterthwaite = C05).  Refuted for complex estimate with sample r = 0 (AttributeError) and, '
-           'in floating point only, for exactly collinear series (ValueError from |r| = 1 + ulp): both are known findings.  '
-           'standard_deviation / standard_uncertainty applied directly to ucomplex data and labels are not modelled.')
+           'the mean for EVERY sample, independent components exactly when the sample covariance is 0), multi_estimate_real '
+           '(closed form; u_k u_l r_kl = S_kl/(N(N-1)) incl. the cv != 0 guard; |r| <= 1 by Cauchy-Schwarz, so _clip_r is the '
+           'identity in exact arithmetic), the bilinear combination identity (LPU double sum over the returned u, r = sample '
+           'covariance of the combined series / N), estimate_digitized >= s/sqrt N, agreement of mean / standard_deviation / '
+           'standard_uncertainty / variance_covariance_complex.  Float level (FNum, any oracle table): _clip_r returns r or '
+           'exactly +-1 and a ValueError of set_correlation_real after it can only concern an unclipped value.  The step from '
+           'the returned u, r to the variance / dof of a derived number is taken from the kernel as two named hypotheses (LPU = '
+           'C04, single-ensemble Welch-Satterthwaite = C05).  multi_estimate_complex: per-entry covariance proved, assembly of '
+           'the 2M x 2M matrix tied by correspondence only.  standard_deviation / standard_uncertainty applied directly to '
+           'ucomplex data and labels are not modelled; rounding error of r beyond the 1e-10 band is not bounded by proof.')
 ASSUMPTIONS = ['rounding error of float arithmetic is not bounded by proof (theorems are over the reals)',
                'kernel facts used as hypotheses of the combination theorem: LPU double sum (C04), single-ensemble Welch-Satterthwaite (C05)']
 TRUSTED = ['translator tools/tr_type_a_est.py (Python ast -> Gallina, fail-closed) for gen/Gen_type_a_est.v',
@@ -381,8 +382,8 @@ def check_multi_real(ls, coef):
     try:
         xs = type_a.multi_estimate_real([list(l) for l in ls])
     except ValueError as ex:
-        if 'correlation coefficient' in str(ex):
-            return {'what': 'multi_estimate_real raises ValueError', 'data': ls, 'known': 'multi_collinear_valueerror'}
+        if 'correlation coefficient' in str(ex):      # fixed finding C12-multi-collinear-valueerror: a regression
+            return {'what': 'multi_estimate_real raises ValueError (%s)' % str(ex)[:80], 'data': ls, 'regression': 'C12-multi-collinear-valueerror'}
         raise
     mags = [max(abs(v) for v in l) or 1.0 for l in ls]
     for k, l in enumerate(ls):
@@ -416,8 +417,8 @@ def check_complex(zs, coef):
     try:
         us = type_a.multi_estimate_complex([[complex(*v) for v in l] for l in zs])
     except ValueError as ex:
-        if 'correlation coefficient' in str(ex):
-            return {'what': 'multi_estimate_complex raises ValueError', 'data': zs, 'known': 'multi_collinear_valueerror'}
+        if 'correlation coefficient' in str(ex):      # fixed finding C12-multi-collinear-valueerror: a regression
+            return {'what': 'multi_estimate_complex raises ValueError (%s)' % str(ex)[:80], 'data': zs, 'regression': 'C12-multi-collinear-valueerror'}
         raise
     y = sum((complex(*c) * u for c, u in zip(coef, us)), 0)
     # exact combined series
@@ -451,8 +452,8 @@ def check_estimate_complex(l):
     n = len(l); re = [v[0] for v in l]; im = [v[1] for v in l]
     try:
         z = type_a.estimate([complex(*v) for v in l])
-    except AttributeError:
-        return {'what': 'estimate of complex data raises AttributeError', 'data': l, 'known': 'estimate_complex_r0'}
+    except AttributeError:                            # fixed finding C12-estimate-complex-r0: a regression
+        return {'what': 'estimate of complex data raises AttributeError', 'data': l, 'regression': 'C12-estimate-complex-r0'}
     mag = max(abs(complex(*v)) for v in l) or 1.0
     v = core.variance(z)
     want = [fcov(re, re) / n, fcov(re, im) / n, fcov(re, im) / n, fcov(im, im) / n]
@@ -497,7 +498,9 @@ def run_check(fn, args):
     return r
 
 def is_known(f):
-    return bool(f) and f.get('known') in ('estimate_complex_r0', 'multi_collinear_valueerror')
+    # C12 has no open known finding: C12-estimate-complex-r0 and C12-multi-collinear-valueerror are fixed, so an input
+    # that reproduces either is a failing input like any other
+    return False
 
 def search(rng, tier, broken):
     n = 600 if tier == 'quick' else 6000
